@@ -135,6 +135,12 @@ public:
     }
     else
     {
+      if(&value >= _begin.item && &value < _end.item && size > _capacity)
+      { // value is an element of this array and reserve() is about to move it
+        T copy(value);
+        resize(size, copy);
+        return;
+      }
       reserve(size);
       T* end = _begin.item + size;
       for (T* i = _begin.item + _size; i != end; ++i)
@@ -179,6 +185,11 @@ public:
   T& append(const T& value)
   {
     usize size = _end.item - _begin.item;
+    if(&value >= _begin.item && &value < _end.item && size + 1 > _capacity)
+    { // value is an element of this array and reserve() is about to move it
+      T copy(value);
+      return append(copy);
+    }
     reserve(size + 1);
     T* item = _end.item;
 #ifdef VERIFY
@@ -210,6 +221,13 @@ public:
   void append(const T* values, usize size)
   {
     usize oldSize = _end.item - _begin.item;
+    if(values >= _begin.item && values < _end.item && oldSize + size > _capacity)
+    { // values point into this array and reserve() is about to move them
+      Array copy;
+      copy.append(values, size);
+      append(copy);
+      return;
+    }
     reserve(oldSize + size);
     T* item = _end.item;
     for(T* end = item + size; item < end; ++item, ++values)
